@@ -341,6 +341,7 @@ class Network:
             removed_peers = self.verified_peers - new_verified_peers
             self.verified_peers = new_verified_peers
             for peer in removed_peers:
+                self.verified_by_public_key_bin.pop(peer.public_key.key_to_bin(), None)
                 list(map(methodcaller("on_peer_removed", peer), self.peer_observers))
 
     def remove_peer(self, peer: Peer) -> None:
